@@ -252,6 +252,13 @@ func c07Strata() []*gast.Grammar {
 		mk(r("A", gast.Rec(gast.Ref("B"), gast.Ref("R"), "L1")), r("B", gast.S(gast.L("x"), gast.Ref("C"))), r("C", gast.Thr("L1")), r("R", gast.Ref("C"))),
 		mk(r("Stmt", gast.Rec(gast.S(gast.Ref("Expr"), gast.L(";")), gast.Ref("Resync"), "L1")), r("Expr", gast.C(gast.Plus(gast.Cl(gast.Chars("01"))), gast.Thr("L1"))),
 			r("Resync", gast.S(gast.Star(gast.Cl(&gast.ClassSpec{Chars: []rune(";01"), Inverted: true})), gast.Ref("Stmt")))),
+		// a nullable left-recursive rule whose recursive reference follows a nullable helper rule; the
+		// helper's name sorts after / before the rule's name
+		mk(r("Items", gast.C(gast.S(gast.Ref("Sep"), gast.Ref("Items"), gast.Ref("Item")), gast.L(""))), r("Sep", gast.Star(gast.L(","))), r("Item", gast.Cl(gast.Chars("ab")))),
+		mk(r("Items", gast.C(gast.S(gast.Ref("Comma"), gast.Ref("Items"), gast.Ref("Item")), gast.L(""))), r("Comma", gast.Star(gast.L(","))), r("Item", gast.Cl(gast.Chars("ab")))),
+		// a negative lookahead over an operand that can match empty (it may still succeed) before the recursive reference
+		mk(r("Items", gast.C(gast.S(gast.NotE(gast.S(gast.Ref("W"), gast.Ref("E"))), gast.Ref("Items"), gast.Ref("Item")), gast.L(""))), r("W", gast.Star(gast.L(" "))), r("E", gast.NotE(gast.Dot())), r("Item", gast.Cl(gast.Chars("ab")))),
+		mk(r("A", gast.C(gast.S(gast.NotE(gast.Opt(gast.L("x"))), gast.Ref("A")), gast.S(gast.AndE(gast.Star(gast.L("y"))), gast.Ref("A"), gast.L("z")), gast.L("b")))),
 		// the operand of a lookahead starts with a nullable rule / group and then calls the rule itself
 		mk(r("Item", gast.S(gast.NotE(gast.S(gast.Ref("Indent"), gast.Ref("Item"))), gast.Ref("Word"))), r("Indent", gast.Star(gast.L(" "))), r("Word", gast.Plus(gast.Cl(gast.Chars("ab"))))),
 		mk(r("Item", gast.S(gast.AndE(gast.S(gast.C(gast.L("x"), gast.L("")), gast.Opt(gast.L("y")), gast.Ref("Item"))), gast.Ref("Word"))), r("Word", gast.Plus(gast.Cl(gast.Chars("ab"))))),
